@@ -784,6 +784,26 @@ def run(tier: str, replay=None) -> int:
                     res.known(f"{k[0]['id']}: {k[0]['what']} [witness: {src}] ({k[0]['site']})")
                 else:
                     viol.append({"what": "dangling else binds to the outer if", "program": src})
+    # the statement `JUMP(x);` is a jump statement in every statement position
+    jump_ctx = ["{ JUMP(RsV); }", "{ if (a) JUMP(RsV); }", "{ if (a) { JUMP(RsV); } else b = 1; }", "{ for (i = 0; i < 2; i++) JUMP(RsV); }",
+                "{ if (a) b = 1; else JUMP(RsV); }", "{ if (a) JUMP(RsV); else b = 1; }", "{ if (a) JUMP(RsV); else JUMP(RtV); }", "{ if (a) if (b) JUMP(RsV); else c = 1; }"]
+    jump_bad = []
+    for src, pr in zip(jump_ctx, rc.parse_programs(jump_ctx)):
+        if pr[0] != "ok":
+            jump_bad.append((src, "rejected: " + str(pr[1])))
+            continue
+        n_jump = len(list(pr[1].find_data("jump")))
+        n_call = len([t_ for t_ in pr[1].find_data("sub_routine") if any(str(getattr(c_, "children", [""])[0] if hasattr(c_, "children") else c_) == "JUMP" for c_ in t_.children[:1])])
+        if n_jump != src.count("JUMP(") or n_call:
+            jump_bad.append((src, f"{n_jump} jump statements, {n_call} calls of a sub-routine JUMP"))
+    kj = [k for k in known_for(PROP) if k["id"] == "C17-jump-before-else-parsed-as-call"]
+    unlisted = [b_ for b_ in jump_bad if not (kj and re.search(r"JUMP\(\w+\); else", b_[0]))]
+    if unlisted:
+        viol.append({"what": f"`JUMP(x);` is not parsed as a jump statement: {unlisted[:3]}", "stmt_text": unlisted[0][0]})
+    elif jump_bad:
+        res.known(f"{kj[0]['id']}: {kj[0]['what']} [{len(jump_bad)} of {len(jump_ctx)} contexts of this run, e.g. {jump_bad[0][0]} -> {jump_bad[0][1]}] ({kj[0]['site']})")
+    elif kj:
+        res.notes.append("known finding C17-jump-before-else-parsed-as-call no longer reproduces")
     # explicit registers whose number has a digit 4..9
     hp = rc.parse_programs(["{ RdV = a * %s; }" % nm for nm in EXPLICIT_HIGH])
     high_bad = []
